@@ -72,7 +72,7 @@ def _case(rng, copt, sopt, hp, sizes, nrounds, backend, noise):
 
 
 def generate(tier, rng):
-  n_cfg = {'quick': 14, 'thorough': 110, 'search': 400}[tier]
+  n_cfg = {'quick': 80, 'thorough': 260, 'search': 400}[tier]
   # fixed corner cases first: all-empty rounds, zero clients, drop_remainder with n < bs, every backend
   for b in BACKENDS:
     yield _case(rng, SGD(0.125), SGD(1.0), _hp(HPS[0], 1), [0, 0], 2, b, True)
